@@ -827,3 +827,48 @@ fn s_push_aggregate_delay() {
     core::mem::forget(nb);
 }
 
+
+/// The bypass + replace path in full, with concrete instants (only the flags are symbolic): a
+/// normal packet waits to enter the tunnel (possibly already allowed to bypass), a padding with
+/// bypass and replace is sent. The waiting packet is never duplicated or dropped.
+#[kani::proof]
+#[kani::unwind(4)]
+#[kani::stub(alloc::fmt::format, format_stub)]
+#[kani::stub(rand::thread_rng, no_thread_rng)]
+fn s_stack_padding_replace_flags() {
+    #[repr(C)]
+    struct TS {
+        secs: i64,
+        nanos: u32,
+    }
+    let t0 = unsafe { core::mem::transmute::<TS, Instant>(TS { secs: 1 << 21, nanos: 0 }) };
+    let now = t0 + Duration::from_secs(1);
+    let none: &[Machine] = &[];
+    let mut side = state_with(none, t0);
+    let mut other = state_with(none, t0);
+    side.blocking_until = Some(t0 + Duration::from_secs(5));
+    side.blocking_bypassable = kani::any();
+    let mut network = crate::network::verif_kani::small_bottleneck(Network::new(Duration::from_micros(1000), None), Duration::from_secs(1), usize::MAX, Duration::ZERO);
+    let mut sq = empty_queue();
+    let q_bypass: bool = kani::any();
+    sq.push_sim(SimEvent { event: TriggerEvent::TunnelSent, time: t0, integration_delay: Duration::ZERO, client: true,
+        contains_padding: false, bypass: q_bypass, replace: false, debug_note: None });
+    let next = SimEvent { event: TriggerEvent::PaddingSent { machine: MachineId::from_raw(0) }, time: now, integration_delay: Duration::ZERO,
+        client: true, contains_padding: true, bypass: true, replace: true, debug_note: None };
+    let _ = sim_network_stack(&next, &mut sq, &side, &mut other, &mut network, &now);
+    let mine = &sq.client;
+    let normals = mine.blocking.len() + mine.bypassable.len() - mine.blocking.iter().chain(mine.bypassable.iter()).filter(|e| e.contains_padding).count();
+    assert!(normals == 1, "C15: normal packets are never created, duplicated or dropped when a bypass+replace padding takes a waiting packet's place");
+    let replaced = !q_bypass || !side.blocking_bypassable;
+    assert!(mine.len() == if replaced { 1 } else { 2 }, "C15: a replaced padding adds no packet; a padding that replaces nothing adds exactly one");
+    if replaced {
+        let e = mine.bypassable.peek();
+        assert!(e.is_some() && !e.unwrap().contains_padding && e.unwrap().bypass && e.unwrap().time == t0,
+            "C16: the waiting normal packet inherits the bypass of the padding it replaces and keeps its time");
+    }
+    kani::cover!(q_bypass && !side.blocking_bypassable, "waiting packet already bypassable under non-bypassable blocking");
+    core::mem::forget(sq);
+    core::mem::forget(side);
+    core::mem::forget(other);
+    core::mem::forget(network);
+}
